@@ -1,7 +1,7 @@
 import Driver.Util
 import Driver.H2Send
 import Driver.Streams
-import HC.Props.C02
+import HC.Proto.H2Wire
 /-! Driver endpoints of the HTTP/2 composition of C02 (`HC.Proto.H2Wire`, theorem `HC.Props.C02.h2_response_delivered`).
 
 * `h2wire.run` {connWin, maxFrame, srv:[[n,v]…], ids, ops:[…]} – replay of a schedule through the send path *with contents*.
@@ -156,7 +156,7 @@ def predict : Handler := fun j => do
   let seed ← getNat j "seed"
   let credits ← (← getArr j "credits").toList.mapM (fun v => v.getNat?)
   let evs := (HC.Stream.Http.feed s0 msgs).2
-  let script := HC.Props.C02.evOps evs
+  let script := evOps evs
   let g0 := ginit cw mf
   match gstep srv g0 (.low (.open_ i sw)) with
   | none => throw "open"
